@@ -18,6 +18,9 @@ PY = sys.executable
 NWORKERS = int(os.environ.get('SIM_WORKERS', '16'))
 HASHSEEDS = ['0', '1', '4242', '31337']
 CHUNK = 24
+# determinism audits: one line per run with its status and log digests
+DUMP = open(os.environ['SIM_DUMP_DIGESTS'], 'w') \
+    if os.environ.get('SIM_DUMP_DIGESTS') else None
 
 
 class Harness(Exception):
@@ -215,6 +218,10 @@ def run_batch(check, tier, seed, indices, ws, mod, agg, keep=(), max_viol=12,
                     if hasattr(mod, 'population') else None)
                 if obj['idx'] in keep:
                     results[obj['idx']] = obj
+                if DUMP is not None:
+                    DUMP.write(json.dumps([obj['idx'], obj.get('status'),
+                                           obj.get('outs'), obj.get('digest'),
+                                           obj.get('sig')]) + '\n')
                 agg.add(obj)
                 if obj['idx'] in sample_idx and obj.get('spec') and \
                         len(agg.samples) < want_samples:
